@@ -13,18 +13,27 @@ import json
 import os
 import pathlib
 import re
+import shutil
 
 from . import common
 from . import paired_runs as pr
+from . import filepp
 from .common import enc, dec
 
 LANGS = ["c", "cpp", "py", "html"]
 PROC_CLASSES = ["siblings", "psUniqueName", "psMemo", "psTemplateCache", "psModelCache", "psCompileFold", "psSharedMutable"]
 FACTOR_CLASSES = {"process": ["random", "platform"], "input-mtime": ["time"], "clock": ["time"], "hashseed": ["hashOrder"], "cwd": ["absPath"],
+                  "environment": ["platform"],
                   "location": ["absPath"], "process-history": PROC_CLASSES}
 CFG = common.VERIF / "corpus" / "C07" / "config"
 TOOL = common.VERIF / "corpus" / "C10" / "tools" / "append_marker.py"
-PPRUN = ("pp-run-program", ["--pp-run-program", TOOL])
+# the recording program: logs every command line it is started with next to the output directory (@OUT.pplog), appends a marker
+# that states the base name of the file it was given (a deterministic tool that uses the name: guard fixer, banner) to every
+# file named on its command line
+REC = common.VERIF / "corpus" / "C10" / "tools" / "record_argv.py"
+PPRUN_ARGS = ["--log", "@OUT.pplog", "--all", "--stamp-name"]
+PPRUN = ("pp-run-program", ["--pp-run-program", REC] + [f"--pp-run-program-arg={a}" for a in PPRUN_ARGS])
+AMBIENT = common.VERIF / "corpus" / "C07" / "ambient"
 COPIED = ("copied-builtin-templates", ["--templates", "@LOC/my_templates"])     # the usual starting point of customised templates
 OPTSETS = {
     "c": [("default", []), ("cfg-option-lists", ["--configuration", CFG / "option_lists.yaml"]), PPRUN, COPIED, ("cfg-option-types", ["--configuration", CFG / "option_types.yaml"]), ("cfg-option-scalars", ["--configuration", CFG / "option_scalars.yaml"]), ("asserts+pp", ["--enable-serialization-asserts", "--enable-override-variable-array-capacity",
@@ -201,6 +210,10 @@ class Model:
         for l in self.dirty(lang, kind, FACTOR_CLASSES[factor]):
             vias = sorted({v for c in FACTOR_CLASSES[factor] for v in l["via"].get(c, [])})
             why.append(f"{l['file']}:{l['line']} via {','.join(vias) or '?'}")
+        facts = self.info.get("facts") or {}
+        if factor in ("cwd", "environment", "location", "process") and facts.get("no_undeclared_ambient_inputs") is False:
+            for pr_ in facts.get("ambient_probes", [])[:4]:
+                why.append(f"{pr_['where']} {pr_['what']}")
         if factor == "hashseed":
             # file order follows the hash-ordered set of nested namespaces; whatever depends on the order depends on the seed
             for l in self.dirty(lang, kind, ["psModelCache", "psUniqueName", "siblings", "psSharedMutable", "psCompileFold"]):
@@ -273,8 +286,28 @@ def where_of_diff(lang, path_a, path_b):
     return "text", d
 
 
+def make_ambient(scratch):
+    """The other working directory (and its ancestors) holds plausible ambient files — nunavut.yaml & co., setup.cfg / tox.ini /
+    pyproject.toml sections, a templates/ directory —, none of them named on the command line; the base directory is empty.
+    Returns (environment of the base runs, ambient environment: NUNAVUT_* / NNVG_* variables and a HOME with dot files)."""
+    for d in (scratch / "cwd2", scratch / "cwd2" / "nested", scratch / "cwd2" / "nested" / "dir"):
+        shutil.copytree(AMBIENT / "cwd", d, dirs_exist_ok=True)
+    shutil.copytree(AMBIENT / "home", scratch / "home2", dirs_exist_ok=True)
+    amb_yaml = scratch / "home2" / "nunavut.yaml"
+    ENV2 = {"HOME": scratch / "home2", "XDG_CONFIG_HOME": scratch / "home2" / ".config", "USERPROFILE": scratch / "home2"}
+    for pre in ("NUNAVUT", "NNVG"):
+        ENV2.update({f"{pre}_CONFIGURATION": amb_yaml, f"{pre}_CONFIG": amb_yaml, f"{pre}_CONFIG_FILE": amb_yaml, f"{pre}_OPTIONS": "--target-endianness big",
+                     f"{pre}_ARGS": "--target-endianness big --enable-serialization-asserts", f"{pre}_TEMPLATES": scratch / "cwd2" / "templates",
+                     f"{pre}_TEMPLATES_DIR": scratch / "cwd2" / "templates", f"{pre}_TARGET_ENDIANNESS": "big", f"{pre}_LANGUAGE_STANDARD": "c++20",
+                     f"{pre}_EMBED_AUDITING_INFO": "1", f"{pre}_OUTDIR": scratch / "home2" / "out", f"{pre}_FILE_MODE": "0o600"})
+    ENV1 = {k: None for k in ENV2 if k not in ("HOME",)}
+    norm = lambda e: {k: (None if v is None else str(v)) for k, v in e.items()}
+    return norm(ENV1), norm(ENV2)
+
+
 def run(ctx: common.Ctx):
     info = pr.run_translator(ctx, common.REPO)
+    pr.report_source_facts(ctx, info, ["no_undeclared_ambient_inputs", "file_pp_source_matches_model", "file_pp_calls_pure", "generator_runs_file_pps_once_in_order"])
     drivers = ctx.prove(["C07"], exes=["tpl"])
     drv = drivers.get("tpl")
     ctx.rule = ("paired runs of the real CLI code in fresh interpreters, one ambient factor varied per pair (process, clock [fixed and "
@@ -328,6 +361,7 @@ def run(ctx: common.Ctx):
     rnd_seed = str(ctx.rng.randint(2, 2 ** 31 - 1))
     scratch = ctx.scratch
     (scratch / "cwd1").mkdir(); (scratch / "cwd2" / "nested" / "dir").mkdir(parents=True)
+    ENV1, ENV2 = make_ambient(scratch)
     jobs, meta = [], {}
     T1, T2 = 981173106.0, 2208988800.0       # 2001-02-03, 2040-01-01
     T_INPUT, T_INPUT2 = 1100000000.0, 1400000000.0   # 2004-11-09, 2014-05-13
@@ -357,14 +391,15 @@ def run(ctx: common.Ctx):
             for oname, extra in (OPTSETS[lang][:nopt] if (ii == 0 or not ctx.quick) else OPTSETS[lang][:1]):
                 cfg = f"{ii}|{lang}|{oname}"
 
-                def add(variant, factor, loc, cwd, hs, ft, step=0.0, cfg=cfg, lang=lang, extra=extra, root=root, lookups=lookups):
+                def add(variant, factor, loc, cwd, hs, ft, step=0.0, cfg=cfg, lang=lang, extra=extra, root=root, lookups=lookups, env=None):
                     out = loc / f"out_{lang}_{oname.replace('+', '_')}_{variant}"
                     argv = ["--experimental-languages", "-l", lang, "-O", out, loc / root.name]
                     for lk in lookups:
                         argv += ["-I", loc / lk.name]
-                    argv += [str(x).replace("@LOC/my_templates", str(loc / "my_templates" / lang)) for x in extra]
+                    argv += [str(x).replace("@LOC/my_templates", str(loc / "my_templates" / lang)).replace("@OUT", str(out)) for x in extra]
                     name = f"j{len(jobs)}"
-                    jobs.append({"name": name, "runs": [pr.make_run(argv, out, cwd)], "hashseed": hs, "fake_time": ft, "fake_step": step})
+                    jobs.append({"name": name, "runs": [pr.make_run(argv, out, cwd)], "hashseed": hs, "fake_time": ft, "fake_step": step,
+                                 "env": ENV1 if env is None else env})
                     meta[name] = {"cfg": cfg, "variant": variant, "factor": factor, "out": out, "lang": lang, "extra": list(extra),
                                   "input": iname, "opt": oname, "hashseed": hs, "fake_time": ft, "fake_step": step, "cwd": str(cwd), "loc": str(loc)}
 
@@ -380,7 +415,11 @@ def run(ctx: common.Ctx):
                 add("hash1", "hashseed", locA, scratch / "cwd1", "1", T1)
                 if not lean_cfg:
                     add("hashR", "hashseed", locA, scratch / "cwd1", rnd_seed, T1)
-                    add("cwd", "cwd", locA, scratch / "cwd2" / "nested" / "dir", "0", T1)
+                # started from a directory with ambient files (inputs and outputs are named by absolute paths)
+                add("cwd", "cwd", locA, scratch / "cwd2" / "nested" / "dir", "0", T1)
+                if not lean_cfg or oname == "default":
+                    # ambient environment variables and another HOME (with dot files)
+                    add("environment", "environment", locA, scratch / "cwd1", "0", T1, env=ENV2)
                 add("location", "location", locB, scratch / "cwd1", "0", T1)
                 add("location-rootname-ancestor", "location", locC, scratch / "cwd1", "0", T1)
                 if not lean_cfg:
@@ -393,7 +432,7 @@ def run(ctx: common.Ctx):
                 add("not-first-in-process", "process-history", locA, scratch / "cwd1", "0", T1)
                 jobs[-1]["runs"].insert(0, pr.make_run(wargv, wout, scratch / "cwd1"))
                 if not ctx.quick:
-                    add("all", "all", locB, scratch / "cwd2" / "nested" / "dir", rnd_seed, T2, 1.0)
+                    add("all", "all", locB, scratch / "cwd2" / "nested" / "dir", rnd_seed, T2, 1.0, env=ENV2)
     ctx.extra["paired_jobs"] = len(jobs)
     results = pr.exec_jobs(common.REPO / "src", scratch, jobs, max_workers=14)
     # stage 2: the same files at the same location with OTHER modification times (a byte-identical copy / checkout made another day)
@@ -424,6 +463,10 @@ def run(ctx: common.Ctx):
             ctx.broken.append({"kind": "paired-run-worker", "job": m["cfg"] + "|" + m["variant"], "error": str(res if isinstance(res, Exception) else bres)[:600]})
             continue
         res, bres = res[-1], bres[0]
+        if m["opt"] == "pp-run-program" and res["error"] is None:
+            # the external program is started once per generated file as <configured command line> + [the real output path]
+            filepp.check_cli_log(ctx, drv, m["lang"], m["out"], res["files"], common.PY, label=f"{m['cfg']}|{m['variant']}", stamp=True,
+                                 kind="external-program-not-given-the-real-output-path")
         if bres["error"] is not None or res["error"] is not None:
             ctx.count("run_error_both" if (bres["error"] and res["error"]) else "run_error_one_side")
             if bool(bres["error"]) != bool(res["error"]):
@@ -435,7 +478,7 @@ def run(ctx: common.Ctx):
         ctx.count("pairs_" + m["variant"])
         ctx.count("files_compared", nfiles)
         diffs = pr.compare(bres["files"], res["files"])
-        factors = [m["factor"]] if m["factor"] != "all" else ["clock", "hashseed", "cwd", "location"]
+        factors = [m["factor"]] if m["factor"] != "all" else ["clock", "hashseed", "cwd", "location", "environment"]
         bmeta = meta[bases[m["cfg"]]]
         by_kind = {}
         for rel in diffs:
@@ -507,10 +550,12 @@ def replay(ctx, path):
         same_cwd = rp["base"]["cwd"] == rp["other"]["cwd"]
         cwd = scratch / ("cwd1" if (side == "base" or same_cwd) else "cwd2/nested/dir")
         cwd.mkdir(parents=True, exist_ok=True)
+        ENV1, ENV2 = make_ambient(scratch)
         out = loc / f"out_{side}"
-        argv = ["--experimental-languages", "-l", rp["lang"], "-O", out, root] + [x for l in lks for x in ("-I", l)] + list(rp["options"])
+        argv = ["--experimental-languages", "-l", rp["lang"], "-O", out, root] + [x for l in lks for x in ("-I", l)] + \
+            [str(o).replace("@OUT", str(out)) for o in rp["options"]]
         jobs.append({"name": side, "runs": [pr.make_run(argv, out, cwd)], "hashseed": cfg["hashseed"], "fake_time": cfg["clock"],
-                     "fake_step": cfg.get("clock_step", 0.0)})
+                     "fake_step": cfg.get("clock_step", 0.0), "env": ENV2 if (side == "other" and var in ("environment", "all")) else ENV1})
         outs[side] = out
     res = pr.exec_jobs(common.REPO / "src", scratch, jobs)
     a, b = res["base"][0], res["other"][0]
